@@ -213,6 +213,7 @@ func (s *Sorts) ZeroOfSort(sort string, t types.Type) Term {
 			}
 		}
 		z := s.ZeroOfSort(v, et)
+		// (cvc5 rejects non-value defaults; z3 accepts them — such files are simply decided by z3)
 		return Term{fmt.Sprintf("((as const %s) %s)", sort, z.S), sort}
 	}
 	if si, ok := s.bySort[sort]; ok {
@@ -314,4 +315,28 @@ func (r *intRange) wrapFull(x Term) Term {
 		return Ite(r.inRange(x), x, md)
 	}
 	return Ite(r.inRange(x), x, Ite(App(SBool, ">", md, bigLit(r.hi)), App(SInt, "-", md, m), md))
+}
+
+// isSMTValue: literal values (numerals, booleans, null-free datatype constructor applications over
+// values) that solvers accept as the default of a constant array.
+func isSMTValue(t string) bool {
+	if t == "true" || t == "false" || isIntLit(t) || t == "0.0" {
+		return true
+	}
+	if strings.HasPrefix(t, "(- ") {
+		return isSMTValue(t[3 : len(t)-1])
+	}
+	if strings.HasPrefix(t, "((as const ") {
+		return true
+	}
+	if strings.HasPrefix(t, "(mk-") {
+		_, args := splitTop(t)
+		for _, a := range args {
+			if !isSMTValue(a) {
+				return false
+			}
+		}
+		return true
+	}
+	return false
 }
